@@ -56,8 +56,10 @@ class WriterModel:
                     cols = [self.ce.ev(a, TABLE) for a in n.iter.args]
                     if all(c is not UNKNOWN for c in cols):
                         vals = list(zip(*cols))
-                if vals and all(v in AXES or (isinstance(v, tuple) and
-                                              v[0] in AXES) for v in vals):
+                if vals is not UNKNOWN and vals and isinstance(
+                        vals, (list, tuple)) and all(
+                        v in AXES or (isinstance(v, tuple) and
+                                      v[0] in AXES) for v in vals):
                     self.loop = n
                     names = target_names(n.target)
                     for v in vals:
@@ -118,6 +120,16 @@ class WriterModel:
                     if isinstance(a, ast.BinOp) and const_str(a.left):
                         self.formatter_paths.setdefault(q, []).append(
                             (const_str(a.left), a.right, n))
+                    elif isinstance(a, ast.JoinedStr):
+                        # f'metadata/{name}' read as 'metadata/%s' % name
+                        fv = [v for v in a.values
+                              if isinstance(v, ast.FormattedValue)]
+                        if len(fv) == 1 and fv[0].format_spec is None:
+                            tmpl = ''.join(
+                                '%s' if isinstance(v, ast.FormattedValue)
+                                else str(v.value) for v in a.values)
+                            self.formatter_paths.setdefault(q, []).append(
+                                (tmpl, fv[0].value, n))
 
 
 class ReaderModel:
@@ -733,8 +745,17 @@ def rule_ag_reg(repo, col):
             isinstance(n.func, ast.Attribute) and n.func.attr == 'replace'
             and len(n.args) == 2 and 'category' in unparse(n.func.value)]
     if wrep and rrep:
-        a = (const_str(wrep[0].args[0]), const_str(wrep[0].args[1]))
-        b = (const_str(rrep[0].args[0]), const_str(rrep[0].args[1]))
+        ce_ = ConstEval(repo)
+
+        def cs(e):
+            v = const_str(e)
+            if v is None:
+                # a module-level constant naming the placeholder
+                v = ce_.ev(e, TABLE)
+                v = v if isinstance(v, str) else None
+            return v
+        a = (cs(wrep[0].args[0]), cs(wrep[0].args[1]))
+        b = (cs(rrep[0].args[0]), cs(rrep[0].args[1]))
         col.check(a[0] == '/' and a == (b[1], b[0]), rule, TABLE,
                   'general_formatter', 'slash', wrep[0],
                   "'/' <-> %r are inverse" % a[1],
